@@ -83,12 +83,12 @@ Proof.
          reflexivity).
   (* Unknown namespace name *)
   destruct (ext_uri exts namespace) as [u|] eqn:Eu; [|discriminate].
-  apply andb_true_iff in Hn. destruct Hn as [Hn Hi]. apply andb_true_iff in Hn. destruct Hn as [Hp Hs].
+  apply andb_true_iff in Hn. destruct Hn as [Hp Hs].
   apply opt_xstr_eqb_eq in Hp.
   rewrite (record_unknown pf64 pf32 u namespace name attrs sc [XText text]).
   - rewrite Ht. reflexivity.
   - exact Hp.
-  - apply orb_true_iff in Hs. destruct Hs as [Hs|Hs]; [left; exact Hs|right; apply negb_true_iff in Hs; exact Hs].
+  - left. exact Hs.
 Qed.
 
 Lemma records_of l :
